@@ -360,10 +360,6 @@ theorem applyOps_dels_eq (t n : Nat) : ∀ (dels : List Key) (s : Snap),
   | d :: r, s, hd, hm => by
       simp only [List.map_cons, applyOps, applyOp]
       have h1 := hd d List.mem_cons_self
-      have hany : (s.rs.any fun x => x.1 == d.1) = true := by
-        apply List.any_eq_true.mpr
-        exact ⟨(t, n), hm, by simp [h1.1]⟩
-      simp only [hany, if_true]
       rw [applyOps_dels_eq t n r]
       · simp only [List.filter_filter]
         congr 2
@@ -412,12 +408,6 @@ theorem applyOps_delDvs : ∀ (l : List (Key × Nat)) {s s' : Snap},
   | [], s, s', h => by simp only [List.map_nil, applyOps] at h; cases h; exact ⟨rfl, fun _ _ => rfl⟩
   | p :: r, s, s', h => by
       simp only [List.map_cons, applyOps, applyOp] at h
-      split at h
-      case h_2 => cases h
-      rename_i s1 h1
-      split at h1
-      case isFalse => cases h1
-      cases h1
       obtain ⟨a, b⟩ := applyOps_delDvs r h
       refine ⟨a, fun key hk => ?_⟩
       rw [b key (fun q hq => hk q (List.mem_cons_of_mem _ hq))]
@@ -724,12 +714,6 @@ theorem applyOps_dels_other {t t' : Nat} (hne : t' ≠ t) : ∀ (dels : List Key
   | [], s, s', _, h => by simp only [List.map_nil, applyOps] at h; cases h; exact ⟨rfl, rfl⟩
   | d :: r, s, s', hd, h => by
       simp only [List.map_cons, applyOps, applyOp] at h
-      split at h
-      case h_2 => cases h
-      rename_i s1 h1
-      split at h1
-      case isFalse => cases h1
-      cases h1
       obtain ⟨a, b⟩ := applyOps_dels_other hne r (fun x hx => hd x (List.mem_cons_of_mem _ hx)) h
       refine ⟨?_, b⟩
       rw [a]
